@@ -14,16 +14,17 @@ from mc.build import im as IM
 from mc.build import ti as TI
 from mc.checks import c10, c12
 from mc.core import explorer
-from mc.core.runner import REPO
+from mc.core.runner import REPO, VERIF
 from mc.core.util import call, diff
 from mc.models import ini, legacy
 
 ID = "C05"
 LEVEL = "model_checking"
 # a trailing letter is a dialect of that version: ci '...s' = a non-layered document that carries a stray base_product section
-# (to be ignored); ti '0.0r/a/b' = repodata spelling / absolute roots, '0.3v' = children listed under 'variants', not 'addons'
+# (to be ignored); ti '0.0r/a/b' = repodata spelling / absolute roots, '0.0p' = image sections named images-<platform>-<arch>,
+# '0.3v' = children listed under 'variants', not 'addons'
 VERSIONS = {"ci": ["0.0", "0.2", "0.3", "0.3s", "0.4", "0.9", "1.0", "1.0s", "1.1"], "im": ["1.0", "1.1"], "rpms": ["0.3", "1.0", "1.1"],
-            "ti": ["0.0", "0.0r", "0.0a", "0.0b", "0.3", "0.3v", "1.0", "1.1"]}
+            "ti": ["0.0", "0.0r", "0.0a", "0.0b", "0.0p", "0.3", "0.3v", "1.0", "1.1"]}
 # 0.0r: pre-productmd file whose repository is spelled <dir>/repodata; 0.0a / 0.0b: image, stage2 and checksum paths spelled as
 # absolute paths below the tree root "/os/" resp. "/srv/tree/x86_64/os/"
 REQUIRED_OUTCOMES = (["ci:%s:upgraded" % v for v in VERSIONS["ci"]] + ["im:%s:upgraded" % v for v in VERSIONS["im"]] +
@@ -64,7 +65,7 @@ def header_of(fmt, text):
     return [h.get("type"), h.get("version")]
 
 
-def upgrade(fmt, text, expected=None):
+def upgrade(fmt, text, expected=None, via_json=False):
     """Load an older document, judge the conversion.  -> {"load": "rejected"} or {"load": "ok", "problems": [...]}"""
     obj = new(fmt)
     r = call(obj.loads, text)
@@ -73,7 +74,7 @@ def upgrade(fmt, text, expected=None):
     problems = []
     obs = observe(fmt, obj)
     if expected is not None:
-        d = diff(obs, expected)
+        d = diff(json.loads(json.dumps(obs)) if via_json else obs, expected)
         if d:
             problems.append("converted object does not carry the document's facts (observed != expected): " + "; ".join(d))
     w = call(dumps, fmt, obj)
@@ -148,8 +149,9 @@ HACK_NAMES = ("Red Hat Enterprise Linux", "Subscription Asset Manager", "Red Hat
 
 def make_ti(spec, version):
     from mc.checks.c07 import render
-    if version in ("0.0", "0.0r", "0.0a", "0.0b"):
-        return make_ti_00(spec, repodata=version == "0.0r", root={"0.0a": "/os/", "0.0b": "/srv/tree/x86_64/os/"}.get(version))
+    if version in ("0.0", "0.0r", "0.0a", "0.0b", "0.0p"):
+        return make_ti_00(spec, repodata=version == "0.0r", root={"0.0a": "/os/", "0.0b": "/srv/tree/x86_64/os/"}.get(version),
+                          arch_suffix=version == "0.0p")
     text = TI.dumps(TI.build(spec))
     children_as_variants = version == "0.3v"
     version = version.rstrip("v")
@@ -168,7 +170,7 @@ def make_ti(spec, version):
     return render(old), TI.expected_observation(spec)
 
 
-def make_ti_00(spec, repodata=False, root=None):
+def make_ti_00(spec, repodata=False, root=None, arch_suffix=False):
     """A pre-productmd tree: only the compatibility section and the image / stage2 / checksum sections, bare digests,
     media numbers in [general].  Only shapes that format can express: one childless top-level variant without a dash, plain
     paths of the main kinds, names without per-product hacks."""
@@ -191,6 +193,8 @@ def make_ti_00(spec, repodata=False, root=None):
         return None
     if root and (spec.get("raw_checksums") or not (spec["images"] or spec["checksums"] or any(spec["stage2"].values()))):
         return None
+    if arch_suffix and not any(p != spec["tree"]["arch"] for p in spec["images"]):
+        return None
     text = TI.dumps(TI.build(spec))
     doc = ini.parse(text)
     out = []
@@ -205,6 +209,8 @@ def make_ti_00(spec, repodata=False, root=None):
                     opts += [("totaldiscs", str(spec["media"]["totaldiscs"]))]
             out.append((sec, opts))
         elif sec.startswith("images-") or sec == "stage2":
+            if arch_suffix and sec.startswith("images-") and sec[7:] != spec["tree"]["arch"]:
+                sec = "%s-%s" % (sec, spec["tree"]["arch"])           # the old spelling [images-xen-x86_64]: platform xen
             out.append((sec, [(k, (root + val) if root else val) for k, val in opts]))
         elif sec == "checksums":
             out.append((sec, [((root + k) if root else k, val.split(":", 1)[1]) for k, val in opts]))
@@ -265,10 +271,29 @@ def fixtures():
     return out
 
 
+GOLDEN = os.path.join(VERIF, "golden", "c05_fixtures.json")
+_GOLDEN = {}
+
+
+def golden():
+    """facts each shipped fixture converts to, recorded from the repaired pinned tree by tools/gen_golden.py (keyed by path and
+    by the SHA-256 of the fixture's text: a fixture that was edited or added has no expectation).  The per-product rules of the
+    pre-productmd reader (RHEL 3-6 paths, RHEL 5 addons, CentOS / RHEL Server families) are documented nowhere but here."""
+    if not _GOLDEN and os.path.exists(GOLDEN):
+        with open(GOLDEN) as f:
+            _GOLDEN.update(json.load(f))
+    return _GOLDEN
+
+
 def eval_fixture(fmt, rel):
+    import hashlib
     with open(os.path.join(REPO, rel)) as f:
         text = f.read()
-    return upgrade(fmt, text, None)
+    g = golden().get(rel)
+    expected = g["facts"] if g and g["sha256"] == hashlib.sha256(text.encode("utf-8")).hexdigest() else None
+    o = upgrade(fmt, text, expected, via_json=True)
+    o["compared_with_recorded_facts"] = expected is not None
+    return o
 
 
 # ---- exploration --------------------------------------------------------------------------------
@@ -317,6 +342,7 @@ def _record(case, o, acc, tagfmt, version):
         return False
     if o["load"] == "rejected":
         acc.outcome("%s:%s:rejected" % (tagfmt, version))           # the property speaks about accepted documents only
+        acc.extra.setdefault("rejected_sample", {}).setdefault("%s:%s" % (tagfmt, version), case)
         return False
     if o["problems"]:
         acc.violation("%s:%s" % (tagfmt, version), case, o, "%s %s document (%s): %s"
@@ -382,7 +408,25 @@ def run_unit(unit, acc):
         acc.sample({"fixture": unit[1][0][1]}, limit=1)
 
 
+def post(acc, tier, seed):
+    """One rejected document is outside the property ('every older-format document the library ACCEPTS').  A listed format
+    version of which NOT ONE generated document is accepted any more is not: the property names the formats the library
+    upgrades (composeinfo 0.x/1.0/1.1, images 1.0/1.1, rpms 0.3/1.0/1.1, pre-productmd/0.3/1.0/1.1 treeinfo)."""
+    for fmt in ("ci", "im", "rpms", "ti"):
+        for version in VERSIONS[fmt]:
+            key = "%s:%s" % (fmt, version)
+            if not acc.outcomes.get(key + ":upgraded") and acc.outcomes.get(key + ":rejected") and key in acc.extra.get("rejected_sample", {}):
+                case = dict(acc.extra["rejected_sample"][key], whole_version_rejected=True)
+                acc.violation("format-no-longer-accepted:" + key, case, {"load": "rejected", "whole_version_rejected": True},
+                              "none of the %d generated %s documents of format version %s is accepted any more (e.g. %s): the property "
+                              "lists this format among those the library upgrades"
+                              % (acc.outcomes[key + ":rejected"], fmt, version, json.dumps({k: v for k, v in case.items() if k in ("seed", "edits", "hist")})[:160]))
+
+
 def replay(case):
+    if case.get("whole_version_rejected"):
+        o = eval_doc({k: v for k, v in case.items() if k != "whole_version_rejected"})
+        return {"load": o.get("load"), "whole_version_rejected": True}
     if case["kind"] == "fixture":
         return eval_fixture(case["fmt"], case["path"])
     return eval_doc(case)
